@@ -258,7 +258,7 @@ fn flag_laws(x: &[u8], rec: &mut Recorder) {
     let r = guard(|| {
         let mut bad: Vec<String> = Vec::new();
         let mut n = 0u64;
-        let mut law = |what: &str, res: (bool, bool), err: Option<(bool, bool)>, ok: bool, bad: &mut Vec<String>| {
+        let law = |what: &str, res: (bool, bool), err: Option<(bool, bool)>, ok: bool, bad: &mut Vec<String>| {
             if res.0 == res.1 || (ok && res.0) {
                 bad.push(format!("{}: is_incomplete={} is_complete={}{}", what, res.0, res.1, if ok { " on a success" } else { "" }));
             }
@@ -413,7 +413,6 @@ fn server_loop(idx: u64, seed: u64, rec: &mut Recorder) {
             let r2 = auto_parse(&fresh);
             rec.events(2);
             if r != r2 {
-                nontrivial = true;
                 rec.violation(
                     "reused-buffer-differs:auto",
                     format!("server:{}:{}", idx, seed),
